@@ -1,5 +1,6 @@
 """Per-property configuration of the check driver."""
 import vcommon as vc
+import gens
 
 PROPS = {}
 
@@ -7,7 +8,8 @@ PROPS["C16"] = dict(
     # the compared observables are exactly what the property fixes (verdict, unifier up to renaming, resolved answer, order, call log):
     # a disagreement with the proved model on a case is a failing input
     mismatch_is_input=True,
-    model="SexprStruct.v",
+    model="SexprTypes.v + gen/CompareGen.v (the Compare methods, REGENERATED from sexpr/ast/compare.go) + SexprStruct.v",
+    gens=[gens.gen_compare],
     harness=[dict(name="main", n_quick=1500, n_thorough=1500, shards_quick=1, shards_thorough=12)],
     trusted=["sort.Sort (stdlib) is trusted: the harness checks its output to be a Compare-sorted permutation, "
              "and C16_sort_canonical shows any such output is the model's insertion sort",
@@ -81,7 +83,6 @@ PROPS["C05"] = dict(
     explanation="invariant proof over an address/GC/allocator LTS for every interleaving; refutation witness for the numbers-only representation; finalizer / misclassification / answer-multiset probes on the real code",
 )
 
-import gens
 PROPS["C08"] = dict(
     # the compared observables are exactly what the property fixes (verdict, unifier up to renaming, resolved answer, order, call log):
     # a disagreement with the proved model on a case is a failing input
